@@ -357,11 +357,11 @@ Section SigProofs.
   Variable hmac_b64 : bytes -> bytes -> bytes.
   Variable sha_hex : bytes -> bytes.
   Variable url_parse : bytes -> option (bytes * bytes).
-  Variable body_dec_ok : bytes -> request -> bool.
+  Variable body_dec : bytes -> request -> dec_res.
 
   Notation verify := (verify_signature hmac_b64 sha_hex url_parse).
   Notation parse := (parse_content_security decryptors rsa_dec b64_dec).
-  Notation gate := (content_security_gate decryptors rsa_dec b64_dec hmac_b64 sha_hex url_parse body_dec_ok).
+  Notation gate := (content_security_gate decryptors rsa_dec b64_dec hmac_b64 sha_hex url_parse body_dec).
   Notation eff := (get_path_query url_parse).
 
   (* the request as the Spec sees it, once the header has been decrypted *)
@@ -417,11 +417,11 @@ Section SigProofs.
     method_checked r = true ->
     let o := gate true tol now r in
     match parse r with
-    | inr _ => o = mks 403 false SigInvalid
+    | inr _ => o = mks 403 false SigInvalid false
     | inl h =>
-        (verify tol now r h = code_invalid_header -> o = mks 403 false SigInvalid) /\
-        (verify tol now r h = code_wrong_time -> o = mks 403 false SigWrongTime) /\
-        (verify tol now r h = code_invalid_token -> o = mks 403 false SigNone)
+        (verify tol now r h = code_invalid_header -> o = mks 403 false SigInvalid false) /\
+        (verify tol now r h = code_wrong_time -> o = mks 403 false SigWrongTime false) /\
+        (verify tol now r h = code_invalid_token -> o = mks 403 false SigNone false)
     end.
   Proof.
     intros Hm. unfold content_security_gate. unfold method_checked in Hm. rewrite Hm.
@@ -449,21 +449,46 @@ Section SigProofs.
     method_checked r = true ->
     (s_ran (gate true tol now r) = true <->
      exists h, parse r = inl h /\ verify tol now r h = code_pass /\
-               ((0 <? r_clen r) && (h_ctype h =? encryption_type) = true -> body_dec_ok (h_key h) r = true)).
+               ((0 <? r_clen r) && (h_ctype h =? encryption_type) = true -> body_dec (h_key h) r = DecOk)).
   Proof.
     intros Hm. unfold content_security_gate. unfold method_checked in Hm. rewrite Hm.
     destruct (parse r) as [h|e].
     - destruct (Z.eqb_spec (verify tol now r h) code_pass) as [E|E]; cbn [negb].
       + destruct ((0 <? r_clen r) && (h_ctype h =? encryption_type)) eqn:C.
-        * destruct (body_dec_ok (h_key h) r) eqn:B; cbn; split.
-          -- intros _. exists h. auto.
-          -- auto.
-          -- discriminate.
-          -- intros [h' [Hp [_ Hb]]]. inversion Hp; subst h'. specialize (Hb C). congruence.
+        * destruct (body_dec (h_key h) r) eqn:B; cbn; split;
+            try (intros _; exists h; auto; fail); try (intros _; reflexivity); try discriminate;
+            intros [h' [Hp [_ Hb]]]; inversion Hp; subst h'; specialize (Hb C); congruence.
         * cbn. split; [|auto]. intros _. exists h. split; [reflexivity|]. split; [assumption|]. intro X. congruence.
       + cbn. split; [discriminate|]. intros [h' [Hp [Hv _]]]. inversion Hp; subst. contradiction.
     - cbn. split; [discriminate|]. intros [h' [Hp _]]. discriminate.
   Qed.
+
+  (* the gate itself panics only inside the body decryption of a request whose signature verified *)
+  Lemma gate_panic strict tol now r :
+    s_panic (gate strict tol now r) = true <->
+    method_checked r = true /\
+    exists h, parse r = inl h /\ verify tol now r h = code_pass /\
+              (0 <? r_clen r) && (h_ctype h =? encryption_type) = true /\ body_dec (h_key h) r = DecPanic.
+  Proof.
+    unfold content_security_gate, method_checked, handle_verification_failure.
+    destruct (existsb (bytes_eqb (r_method r)) checked_methods); cbn; [|split; [discriminate|intros [H _]; discriminate]].
+    destruct (parse r) as [h|e].
+    - destruct (Z.eqb_spec (verify tol now r h) code_pass) as [E|E]; cbn [negb].
+      + destruct ((0 <? r_clen r) && (h_ctype h =? encryption_type)) eqn:C.
+        * destruct (body_dec (h_key h) r) eqn:B; cbn; split; try discriminate.
+          -- intros [_ [h' [Hp [_ [_ Hb]]]]]. inversion Hp; subst h'. congruence.
+          -- intros [_ [h' [Hp [_ [_ Hb]]]]]. inversion Hp; subst h'. congruence.
+          -- intros _. split; [reflexivity|]. exists h. auto.
+          -- auto.
+        * cbn. split; [discriminate|]. intros [_ [h' [Hp [_ [Hc _]]]]]. inversion Hp; subst h'. congruence.
+      + destruct strict; cbn; (split; [discriminate|]); intros [_ [h' [Hp [Hv _]]]]; inversion Hp; subst h'; contradiction.
+    - destruct strict; cbn; (split; [discriminate|]); intros [_ [h' [Hp _]]]; discriminate.
+  Qed.
+
+  (* the body hash is taken over the bytes of the body, whatever the declared length (framing) *)
+  Lemma verify_framing tol now r h clen :
+    verify tol now (mkr (r_method r) (r_path r) (r_query r) (r_xuri r) (r_cs r) (r_body r) clen) h = verify tol now r h.
+  Proof. reflexivity. Qed.
 
   (* strict mode against the Spec: the handler runs iff the header decrypts, the Spec accepts, and --
      when the request announces an encrypted body -- that body decrypts *)
@@ -471,7 +496,7 @@ Section SigProofs.
     0 <= tol -> 0 <= now -> now + 2 * tol < 2^63 -> method_checked r = true ->
     (s_ran (gate true tol now r) = true <->
      exists h, parse r = inl h /\ sig_accept hmac_b64 sha_hex tol now (q_of h r) = true /\
-               ((0 <? r_clen r) && (h_ctype h =? encryption_type) = true -> body_dec_ok (h_key h) r = true)).
+               ((0 <? r_clen r) && (h_ctype h =? encryption_type) = true -> body_dec (h_key h) r = DecOk)).
   Proof.
     intros Ht Hn Hb Hm. rewrite (strict_iff tol now r Hm).
     split; intros [h [Hp [Hv Hc]]]; exists h; (split; [assumption|]); (split; [|assumption]);
